@@ -30,6 +30,7 @@ From Ark Require Import Model.Base Model.Mask Model.Pool Model.Util Model.World 
 From Ark Require Import Proofs.WF Proofs.StorageA Proofs.ResetShrinkProofs Proofs.ObsSpec Proofs.Rel2Defs Proofs.Rel2Maint Proofs.StorageD Proofs.Rel2Hist Properties.Common.
 From Ark Require Proofs.ObsProofs.
 From Ark Require Import Proofs.Rel2HistQ.
+From Ark Require Import Proofs.ObsErase Proofs.Rel2HistO Proofs.Rel2HistR.
 
 Theorem C16_reset_empty : forall s, St s -> is_locked s = false ->
   (forall aid a, nth_error (w_archs s) aid = Some a -> a_tables a <> []) ->
@@ -112,7 +113,74 @@ Theorem C16_reset_rejected_when_locked : forall c lines,
   exists er, step_op (sc_debug c) OReset (Properties.Common.exec c lines) = Err er (Properties.Common.exec c lines).
 Proof. exact reachable_locked_reset_rejected. Qed.
 
-Definition C16_all := (C16_reset_succeeds_histories_with_queries, C16_reset_rejected_when_locked, C16_reset_succeeds_relation_histories, C16_reset_conditions_AB_are_invariants, C16_archetypes_always_have_their_table,
+(** ** "From then on every history has the same outcome as on a new world", as far as it can be stated on the model
+    alone (Rel2HistR): the world after a successful Reset is FRESH ([r2r_fresh]: unlocked, no live entity, pool =
+    new pool, no cache entry, every table empty and every relation table free, no lookup entry, the invariant with a
+    fresh epoch and a fresh step counter) - and so is the initial world of every configuration; from a fresh world
+    every covered history keeps the invariant, all earlier handles being foreign. Reset succeeds in every unlocked
+    state of a history that itself contains Resets, and of a history with observers. A bisimulation between the reset
+    world and a new world is NOT proved (the reset world keeps empty archetypes / tables, filter and query objects
+    and the issued-handle list): that sentence is decided by the reset twin on the implementation. *)
+Theorem C16_reset_succeeds_histories_with_observers :
+  forall (c : script_cfg) (lines : list (list Z)),
+         cfg_ok2 c ->
+         Forall (rel_o_line (sc_kinds c)) lines ->
+         length lines + 4 < 2 ^ 31 ->
+         is_locked (exec c lines) = false ->
+         exists s' : W,
+           step_op (sc_debug c) OReset (exec c lines) = Ok [] s' /\
+           St2 s' /\
+           r2d_KeysLive s' /\
+           is_locked s' = false /\ (forall e : ent, live s' e = false) /\ w_reg s' = w_reg (exec c lines).
+Proof. exact reachable_unlocked_reset_succeeds_O. Qed.
+
+Theorem C16_reset_yields_a_fresh_world :
+  forall (debug : bool) (s : W) (n k : nat),
+         Inv2R s n k ->
+         is_locked s = false ->
+         exists s' : W,
+           step_op debug OReset s = Ok [] s' /\
+           r2r_fresh s' /\
+           w_reg s' = w_reg s /\
+           w_cfg s' = w_cfg s /\
+           w_issued s' = w_issued s /\
+           length (w_archs s') = length (w_archs s) /\ length (w_tables s') = length (w_tables s).
+Proof. exact r2r_reset_unlocked. Qed.
+
+Theorem C16_new_world_is_fresh :
+  forall c : script_cfg, cfg_ok2 c -> r2r_fresh (init_world c).
+Proof. exact r2r_fresh_init. Qed.
+
+Theorem C16_every_history_from_a_fresh_world_keeps_the_invariant :
+  forall (debug : bool) (lines : list (list Z)) (s : W),
+         r2r_fresh s ->
+         rel_r_hist debug (w_reg s) (s, length (w_issued s)) lines ->
+         length lines + 4 < 2 ^ 31 ->
+         Inv2R (fst (r2r_run_from debug (s, length (w_issued s)) lines)) (length lines)
+           (snd (r2r_run_from debug (s, length (w_issued s)) lines)).
+Proof. exact fresh_start_inv2R. Qed.
+
+Theorem C16_reset_in_every_state_of_a_history_with_resets :
+  forall (c : script_cfg) (lines : list (list Z)),
+         cfg_ok2 c ->
+         rel_r_hist (sc_debug c) (sc_kinds c) (init_world c, 0) lines ->
+         length lines + 4 < 2 ^ 31 ->
+         let s := exec c lines in
+         (is_locked s = false ->
+          exists s' : W,
+            step_op (sc_debug c) OReset s = Ok [] s' /\
+            r2r_fresh s' /\ w_reg s' = w_reg s /\ w_cfg s' = w_cfg s /\ w_issued s' = w_issued s) /\
+         (is_locked s = true -> exists er : err, step_op (sc_debug c) OReset s = Err er s).
+Proof. exact reachable_reset_R. Qed.
+
+Theorem C16_invariant_after_every_history_with_resets :
+  forall (c : script_cfg) (lines : list (list Z)),
+         cfg_ok2 c ->
+         rel_r_hist (sc_debug c) (sc_kinds c) (init_world c, 0) lines ->
+         length lines + 4 < 2 ^ 31 -> Inv2R (exec c lines) (length lines) (r2r_epoch_of c lines).
+Proof. exact reachable_inv2R. Qed.
+
+Definition C16_all := (C16_reset_succeeds_histories_with_observers, C16_reset_yields_a_fresh_world, C16_new_world_is_fresh, C16_every_history_from_a_fresh_world_keeps_the_invariant, C16_reset_in_every_state_of_a_history_with_resets, C16_invariant_after_every_history_with_resets, C16_reset_succeeds_histories_with_queries, C16_reset_rejected_when_locked, C16_reset_succeeds_relation_histories, C16_reset_conditions_AB_are_invariants, C16_archetypes_always_have_their_table,
   C16_reset_relation_worlds, C16_relation_example, C16_reset_empty, C16_reset_locked_rejected, C16_reset_needs_every_archetype_to_have_a_table,
   C16_reset_clears_observers).
 Print Assumptions C16_all.
